@@ -322,3 +322,11 @@ class Check:
         print("OK property=%s tier=%s wall=%.1fs" % (self.prop, self.tier, wall))
         sys.stdout.flush()
         return 0
+
+
+def tlc_parallel(jobs, parallel=5):
+    """jobs: list of dicts of tlc() keyword arguments (module, cfg, ...). Returns results in order."""
+    from concurrent.futures import ThreadPoolExecutor
+    with ThreadPoolExecutor(max_workers=parallel) as ex:
+        futs = [ex.submit(tlc, **j) for j in jobs]
+        return [f.result() for f in futs]
